@@ -1,6 +1,6 @@
 (* C06 -- Protobuf wire format conforms to the protobuf encoding spec (interop).
    Spec.v is written from the encoding guide, independently of pilota's code.  Only statements. *)
-From PVPb Require Import Wire Codec Msg Spec Proofs.SpecP Proofs.MsgRtP Proofs.SpecDecP Proofs.SpecMsgP.
+From PVPb Require Import Wire Codec Msg Spec Proofs.SpecP Proofs.MsgRtP Proofs.SpecDecP Proofs.SpecMsgP Proofs.UnknownP Conform Proofs.EngineP Proofs.ConformP.
 Open Scope Z_scope.
 
 (* The link between "declared sint32" and "uses the sint32 codec": for all 16 declared scalar types
@@ -68,9 +68,47 @@ Theorem C06_out : forall edv sc d i v, schema_ok sc = true -> wt_msg d sc i v = 
 Proof. exact spec_decode_rt. Qed.
 Print Assumptions C06_out.
 
-(* NOT PROVED (validated by the correspondence runs model = reference decoder = implementation, every style of the
-   reference encoder):
-   C06_in  : pb_legal sc i x l -> msg_decode sc i (mkR l 0) = OOk x (mkR [] _)
-   for every order of records, packed / unpacked / mixed repeated scalars and defaults present or omitted (the relation
-   pb_legal of conforming encodings is not set up in Coq; the field-level in-direction is C06_scalar_in / C06_packed_in,
-   the order-independence half is C18). *)
+(* in direction, message level: EVERY encoding the encoding guide allows for a value decodes to that value.
+   [conforming ub d sc i v bs] (Conform.v, written from the encoding guide in the vocabulary of Spec.v) holds of every
+   byte string bs that is a sequence of records in which
+     - the records of different fields come in any order, unknown fields (any wire type, groups nested <= ub deep,
+       valid field number) anywhere in between, at every level;
+     - a singular / optional scalar occurs any number of times (last one wins; not at all = default / unset);
+     - a singular / optional embedded message is split over any number of length-delimited records whose bodies,
+       concatenated, conform one level down;
+     - a repeated scalar is any mixture of unpacked records and packed runs (numeric types; empty runs included) in
+       element order; a repeated message / string / bytes has one record per element;
+     - a map has one record per entry, inside which key and value come in either order, any number of times or not at
+       all, the value message possibly split, unknown fields in between; later equal keys replace earlier ones;
+     - a oneof is the run of the records of all its members, the last one deciding, consecutive message-typed records of
+       one member merging;
+   d bounds the message nesting depth of v.  The model of the generated decoder (msg_decode = Message::decode of the
+   generated impl) maps every such byte string to v and consumes it entirely, under
+     - schema_ok (field numbers valid and distinct, types declared -- what pilota-build accepts),
+     - the input shorter than 2^64 bytes,
+     - the recursion budget: a message level costs one unit, a map entry with a message value two (the entry and its
+       value both enter), the unknown groups at most ub more: 2 d - 1 + ub <= recursion_limit (= 100).
+   Proof: the record loop is a projection engine (Proofs/EngineP.v: every record is routed to one struct slot, reads
+   and writes that slot only), so the result is determined slot by slot by the records of that slot in arrival order;
+   per slot the C18 facts (last wins, repeated order, packed = unpacked, oneof replace, embedded merge = concatenation,
+   map insert) identify what the chain of records makes of the default with the value the relation prescribes. *)
+Theorem C06_in : forall ub sc d i v bs a,
+  schema_ok sc = true -> 0 <= ub -> conforming ub d sc i v bs -> zlen bs < two64 ->
+  2 * Z.of_nat d - 1 + ub <= recursion_limit ->
+  exists a', msg_decode sc i (mkR bs a) = OOk v (mkR [] a').
+Proof. exact conforming_decodes. Qed.
+Print Assumptions C06_in.
+
+(* the relation behind it, at record level: a conforming record list drives the loop body of message #j from the default
+   value to v, whatever follows in the buffer (any depth fuel dm, Dd >= d, any budget c in the window) *)
+Theorem C06_in_records : forall ub sc, schema_ok sc = true -> 0 <= ub -> forall d j x rs dm c Dd,
+  mconf ub d sc j x rs -> Forall fits rs -> (d <= dm)%nat -> (d <= Dd)%nat -> 2 * Z.of_nat d - 1 + ub <= c <= recursion_limit ->
+  rsteps (rbody sc dm j c) (default_msg Dd sc j) rs x.
+Proof. exact mconf_run. Qed.
+Print Assumptions C06_in_records.
+
+(* the canonical encoding is one of the conforming ones is C06_out + C05_msg_rt; non-vacuity of the rest:
+   Proofs/ConformP.v conforming_nonvacuous -- a value of demo_schema with an encoding that has records out of order, a
+   singular field twice, packed + unpacked chunks mixed, an unknown field, a oneof set twice, a map entry with the value
+   before the key and an embedded message split in two; it conforms, differs from the canonical encoding and decodes
+   to the value. *)
